@@ -507,6 +507,12 @@ bs_done:
 			rc = KSI_AggregationReq_new(c, &rq); if (rc) { KSI_DataHash_free(dh); return rc; }
 			KSI_AggregationReq_setRequestHash(rq, dh); if (atoi(tok[5]) > 0) { rc = KSI_Integer_new(c, strtoull(tok[5], NULL, 0), &lv); if (rc) { KSI_AggregationReq_free(rq); return rc; } KSI_AggregationReq_setRequestLevel(rq, lv); }
 			rc = KSI_AsyncAggregationHandle_new(c, rq, &h); if (rc) { KSI_AggregationReq_free(rq); return rc; } tag = tok[6]; }
+		else if (!strcmp(tok[3], "signwconf")) { /* signwconf <imprint> <level> <tag>: ONE aggregation request that asks for a signature and for the server's configuration */
+			KSI_DataHash *dh = hash_arg(c, tok[4], &rc); KSI_AggregationReq *rq = NULL; KSI_Integer *lv = NULL; KSI_Config *cfg = NULL; if (!dh) return rc;
+			rc = KSI_AggregationReq_new(c, &rq); if (rc) { KSI_DataHash_free(dh); return rc; }
+			KSI_AggregationReq_setRequestHash(rq, dh); if (atoi(tok[5]) > 0) { rc = KSI_Integer_new(c, strtoull(tok[5], NULL, 0), &lv); if (rc) { KSI_AggregationReq_free(rq); return rc; } KSI_AggregationReq_setRequestLevel(rq, lv); }
+			rc = KSI_Config_new(c, &cfg); if (rc) { KSI_AggregationReq_free(rq); return rc; } KSI_AggregationReq_setConfig(rq, cfg);
+			rc = KSI_AsyncAggregationHandle_new(c, rq, &h); if (rc) { KSI_AggregationReq_free(rq); return rc; } tag = tok[6]; }
 		else if (!strcmp(tok[3], "signh")) { /* signh <imprint> <level> <tag>: KSI_AsyncSigningHandle_new (hash and level given directly; the hash is the handle's only after success) */
 			KSI_DataHash *dh = hash_arg(c, tok[4], &rc); if (!dh) return rc;
 			rc = KSI_AsyncSigningHandle_new(c, dh, strtoull(tok[5], NULL, 0), &h); if (rc) { KSI_DataHash_free(dh); return rc; } tag = tok[6]; }
